@@ -19,6 +19,8 @@ def run(ctx):
         cs = ctx.tlc_family(fam, constants={"Tier": '"quick"'}, timeout=3000)
         cs.sort(key=lambda c: c["id"])
         cases += cs[::stride]
+    # multi-file programs: what is linked into the script (functions of imported files, their top-level code) obeys the same structural rules
+    cases += [c for c in ctx.tlc_family("FamC09", constants={"Tier": '"quick"'}, timeout=3000) if "/neg/" not in c["id"] and "/libneg/" not in c["id"]][::(2 if quick else 1)]
     ctx.exhaustive["FamC16"] = True
     wd = ctx.sub("emit")
     p0, p1 = os.path.join(wd, "c0.ndjson"), os.path.join(wd, "c1.ndjson")
